@@ -1,7 +1,6 @@
 /- DriverOps.C13 — run schedules through the two interleaving systems -/
 import DriverOps.C11
 import SparseV.Model.Interleave
-import SparseV.Props.C13
 open Lean SparseV SparseV.Cache SparseV.Interleave
 
 def outcomeJ {α} (f : α → Json) : Except Err α → Json
